@@ -1,3 +1,4 @@
 """importing this package registers every rule"""
 from . import clients  # noqa: F401
 from . import determinism  # noqa: F401
+from . import results  # noqa: F401
